@@ -74,7 +74,7 @@ def _pair_objects(pos, q1, q2, s1, s2, ego2map, score=0.9, uuids=(None, None)):
     return est, gt, est_m, gt_m
 
 
-def _observe(est, gt, est_m, gt_m, transforms, flip_est, flip_est_m):
+def _observe(est, gt, est_m, gt_m, transforms, flip_est, flip_est_m, flip_gt=None, flip_gt_m=None):
     from perception_eval.evaluation.metrics.detection.tp_metrics import TPMetricsAph
     from perception_eval.evaluation.result.object_result import DynamicObjectWithPerceptionResult as R
 
@@ -85,7 +85,14 @@ def _observe(est, gt, est_m, gt_m, transforms, flip_est, flip_est_m):
     rm = R(est_m, gt_m, transforms=transforms)
     rms = R(gt_m, est_m, transforms=transforms)
     rmf = R(flip_est_m, gt_m, transforms=transforms)
+    extra = {"err_map_flip": float(rmf.heading_error[2])}
+    if flip_gt is not None:
+        # the GROUND TRUTH's quaternion negated alone (oracle-only observations)
+        rg, rmg = R(est, flip_gt), R(est_m, flip_gt_m, transforms=transforms)
+        extra.update({"w_ego_flipgt": float(aph.get_value(rg)), "w_map_flipgt": float(aph.get_value(rmg)),
+                      "err_ego_flipgt": float(rg.heading_error[2]), "err_map_flipgt": float(rmg.heading_error[2])})
     return {
+        **extra,
         "w_ego": float(aph.get_value(r)), "w_ego_swapped": float(aph.get_value(rs)), "w_ego_flip": float(aph.get_value(rf)),
         "w_map": float(aph.get_value(rm)), "w_map_swapped": float(aph.get_value(rms)), "w_map_flip": float(aph.get_value(rmf)),
         "err_ego": float(r.heading_error[2]), "err_ego_swapped": float(rs.heading_error[2]), "err_ego_flip": float(rf.heading_error[2]),
@@ -138,8 +145,8 @@ class HeadingCorr(Corr):
             ego2map, tr = _scene(case["e"], case["t"])
             q1, q2 = _qz(case["k1"] * math.pi / N), _qz(case["k2"] * math.pi / N)
             est, gt, est_m, gt_m = _pair_objects(case["pos"], q1, q2, case["s1"], case["s2"], ego2map)
-            fest, _, fest_m, _ = _pair_objects(case["pos"], q1, q2, -case["s1"], case["s2"], ego2map)
-            return _observe(est, gt, est_m, gt_m, tr, fest, fest_m)
+            fest, fgt, fest_m, fgt_m = _pair_objects(case["pos"], q1, q2, -case["s1"], -case["s2"], ego2map)
+            return _observe(est, gt, est_m, gt_m, tr, fest, fest_m, fgt, fgt_m)
         from perception_eval.common.label import AutowareLabel
         from perception_eval.evaluation.matching.object_matching import MatchingMode
         from perception_eval.evaluation.metrics.detection.ap import Ap
@@ -252,6 +259,9 @@ def check_pair(obs, y1, y2, d, tol_w, tol_a, what):
         return f"APH weight is not symmetric: {obs['w_ego']} vs {obs['w_ego_swapped']} (map {obs['w_map']} vs {obs['w_map_swapped']}) ({what})"
     if abs(obs["w_ego"] - obs["w_ego_flip"]) > tol_w or abs(obs["w_map"] - obs["w_map_flip"]) > tol_w:
         return f"APH weight depends on the quaternion sign: {obs['w_ego']} vs {obs['w_ego_flip']} (map {obs['w_map']} vs {obs['w_map_flip']}) ({what})"
+    if "w_ego_flipgt" in obs and (abs(obs["w_ego"] - obs["w_ego_flipgt"]) > tol_w or abs(obs["w_map"] - obs["w_map_flipgt"]) > tol_w):
+        return (f"APH weight depends on the sign of the ground truth's quaternion: {obs['w_ego']} vs {obs['w_ego_flipgt']} "
+                f"(map {obs['w_map']} vs {obs['w_map_flipgt']}) ({what})")
     if abs(obs["w_map"] - obs["w_ego"]) > 2 * tol_w or abs(obs["w_map"] - want) > 2 * tol_w:
         return f"APH weight depends on the frame: ego {obs['w_ego']}, map {obs['w_map']}, 1 - d/pi = {want} ({what})"
     for w in (obs["w_ego"], obs["w_map"]):
@@ -261,7 +271,10 @@ def check_pair(obs, y1, y2, d, tol_w, tol_a, what):
         return f"BEV heading depends on the frame: estimate {obs['hb_est']} vs {obs['hb_est_map']}, ground truth {obs['hb_gt']} vs {obs['hb_gt_map']} ({what})"
     # signed error: wrap(yaw_gt - yaw_est)
     true_err = math.atan2(math.sin(y2 - y1), math.cos(y2 - y1))
-    for k, sgn in (("err_ego", 1), ("err_ego_swapped", -1), ("err_ego_flip", 1), ("err_map", 1), ("err_map_swapped", -1)):
+    for k, sgn in (("err_ego", 1), ("err_ego_swapped", -1), ("err_ego_flip", 1), ("err_map", 1), ("err_map_swapped", -1),
+                   ("err_map_flip", 1), ("err_ego_flipgt", 1), ("err_map_flipgt", 1)):
+        if k not in obs:
+            continue
         e = obs[k]
         tol = tol_a * (2 if "map" in k else 1)
         if abs(e) > math.pi + 1e-12:
@@ -292,6 +305,19 @@ class TiltCorr(Corr):
                         "ey": rng.uniform(-math.pi, math.pi), "erp": [rng.uniform(-0.02, 0.02), rng.uniform(-0.02, 0.02)] if rng.random() < 0.5 else [0.0, 0.0],
                         "t": [rng.uniform(-100, 100), rng.uniform(-100, 100), rng.uniform(-2, 2)],
                         "pos": [rng.uniform(-50, 50), rng.uniform(-50, 50), rng.uniform(-1, 1)]})
+            if rng.random() < 0.2:
+                # continuous yaws OFF the k*pi/24 grid with no tilt at all (objects and ego pose): judged with the exact tolerance, not 0.06 rad;
+                # a share of them within 0.02 rad of the +-pi seam, where a fold constant slightly off pi would show
+                c = out[-1]
+                c["rp1"], c["rp2"], c["erp"], c["untilted"] = [0.0, 0.0], [0.0, 0.0], [0.0, 0.0], True
+                u = rng.random()
+                if u < 0.3:        # nearly opposite headings: d = pi - delta, delta log-uniform in [1e-6, 0.02]
+                    delta = 10 ** rng.uniform(-6, -1.7)
+                    y2 = c["y1"] + rng.choice((1, -1)) * (math.pi - delta)
+                    c["y2"] = math.atan2(math.sin(y2), math.cos(y2))
+                elif u < 0.55:     # a yaw next to the +-pi seam of atan2, the other one across the seam or anywhere
+                    c["y1"] = rng.choice((1, -1)) * (math.pi - 10 ** rng.uniform(-6, -1.7))
+                    c["y2"] = rng.choice((-c["y1"], -math.copysign(math.pi - 10 ** rng.uniform(-6, -1.7), c["y1"]), rng.uniform(-math.pi, math.pi)))
         return out
 
     def run_impl(self, case):
@@ -299,8 +325,8 @@ class TiltCorr(Corr):
         q2 = _quat_zyx(case["y2"], case["rp2"][1], case["rp2"][0])
         ego2map, tr = _scene(None, case["t"], _quat_zyx(case["ey"], case["erp"][1], case["erp"][0]))
         est, gt, est_m, gt_m = _pair_objects(case["pos"], q1, q2, case["s1"], case["s2"], ego2map)
-        fest, _, fest_m, _ = _pair_objects(case["pos"], q1, q2, -case["s1"], case["s2"], ego2map)
-        return _observe(est, gt, est_m, gt_m, tr, fest, fest_m)
+        fest, fgt, fest_m, fgt_m = _pair_objects(case["pos"], q1, q2, -case["s1"], -case["s2"], ego2map)
+        return _observe(est, gt, est_m, gt_m, tr, fest, fest_m, fgt, fgt_m)
 
     def coq_term(self, case, obs):
         return "true"
@@ -308,10 +334,17 @@ class TiltCorr(Corr):
     def oracle(self, case, obs):
         y1, y2 = case["y1"], case["y2"]
         d = circ_diff(y1, y2)
+        if case.get("untilted"):
+            return check_pair(obs, y1, y2, d, TOL, TOL, f"yaws {y1!r}, {y2!r} (no roll/pitch), signs {case['s1']},{case['s2']}, ego yaw {case['ey']!r}")
         return check_pair(obs, y1, y2, d, TILT_TOL / math.pi, TILT_TOL, f"yaws {y1:.4f}, {y2:.4f} with roll/pitch {case['rp1']}, {case['rp2']}")
 
     def nontrivial(self, case, obs):
         return True
+
+    def distribution(self, cases, obs):
+        return {"tilted": sum(1 for c in cases if not c.get("untilted")), "untilted_continuous_yaws_exact_tolerance": sum(1 for c in cases if c.get("untilted")),
+                "untilted_yaw_within_0.02rad_of_the_seam": sum(1 for c in cases if c.get("untilted") and math.pi - abs(c["y1"]) < 0.021),
+                "untilted_nearly_opposite_headings": sum(1 for c in cases if c.get("untilted") and 0 < math.pi - circ_diff(c["y1"], c["y2"]) < 0.021)}
 
 
 class C09(Prop):
@@ -326,13 +359,15 @@ class C09(Prop):
                   "0 iff opposite, independent of the quaternion sign and of a common rotation by any ego yaw with wrap-around; BEV heading "
                   "through the real map->base_link transform equals the ego-frame heading; yaw error in [-1,1], |error| = d for either "
                   "order, and est + error = gt on the circle; Ap.tp_list = running sums of 1 - d. The model is compared on every run with the "
-                  "implementation on all 48x48 grid pairs (k*pi/24), random signs, ego and map frames with random ego pose, within 1e-9.")
+                  "implementation on all 48x48 grid pairs (k*pi/24), random signs, ego and map frames with random ego pose, within 1e-9. Oracle-only: continuous "
+                  "off-grid yaws without tilt within 1e-9; sign of the ground truth's quaternion alone; yaw error with a negated estimate in the map frame.")
     level_note = ("Trusted: Coq kernel+vm_compute; that pyquaternion's yaw_pitch_roll[0] returns the yaw (atan2 does not exist in Q): "
                   "validated numerically on the grid and, with roll/pitch <= 0.05 rad, by the oracle-only stream (tolerance 0.06 rad); "
                   "angles at the +-pi wrap are compared on the circle.")
     rule = ("heading: regression pairs (negative yaw, wrap) x 4 sign combinations, every (k1,k2) of the 48x48 grid with random signs / ego "
-            "yaw / translation, Ap with 1-8 results in both frames; tilted: random yaws with roll/pitch <= 0.05 (oracle only); "
-            "non-trivial = different yaws")
+            "yaw / translation, Ap with 1-8 results in both frames; tilted: random yaws with roll/pitch <= 0.05 (oracle only), 20% of them with NO tilt "
+            "(continuous off-grid yaws; 30% of those nearly opposite, d = pi - delta with delta log-uniform in [1e-6, 0.02]; 25% with a yaw that close to the +-pi seam) judged within 1e-9; the weight and the yaw error are also observed with the "
+            "ground truth's quaternion negated alone and, in the map frame, with the estimate's negated (oracle only); non-trivial = different yaws")
     assumptions = ["orientations are yaw-only in the model (roll/pitch stream is oracle-only)",
                    "pyquaternion yaw extraction and Quaternion(matrix=...) validated numerically, not proved"]
     not_proved = ["yaw_pitch_roll[0] = atan2(...) returns the yaw of the quaternion", "orientations with roll/pitch (tolerance-tested only)",
